@@ -95,7 +95,7 @@ class CorpusShufflingTool:
             for unit in continuum[annotator]:
                 continuum.remove(annotator, unit)
                 start_seg, end_seg = 0.0, 0.0
-                while start_seg >= end_seg:
+                while not Segment(start_seg, end_seg):  # i.e. shorter than the segment precision (or reversed)
                     start_seg = unit.segment.start + np.random.uniform(-1, 1) * shift_max
                     end_seg = unit.segment.end + np.random.uniform(-1, 1) * shift_max
                 continuum.add(annotator, Segment(start_seg, end_seg), unit.annotation)
